@@ -74,6 +74,15 @@ func opGoGen(j Job) Res {
 		}
 		res["structs"] = structs
 		res["n_enums"] = len(d.Enums)
+		enums := []interface{}{}
+		for _, e := range d.Enums {
+			cs := [][2]string{}
+			for _, k := range e.Constants {
+				cs = append(cs, [2]string{k.Name, k.Value})
+			}
+			enums = append(enums, map[string]interface{}{"name": e.Name, "consts": cs})
+		}
+		res["enums"] = enums
 		qs := []interface{}{}
 		for _, q := range d.Queries {
 			qs = append(qs, map[string]interface{}{"cmd": q.Cmd, "method": q.MethodName, "source": q.SourceName, "has_ret": q.HasRetType,
